@@ -17,7 +17,21 @@ import (
 	"time"
 )
 
-const verifDir = "/verif"
+// verifDir: the framework's own directory (the parent of bin/), so that a copy or
+// snapshot of /verif is self-contained
+var verifDir = func() string {
+	if v := os.Getenv("VCHECK_HOME"); v != "" {
+		return v
+	}
+	if exe, err := os.Executable(); err == nil {
+		if d := filepath.Dir(filepath.Dir(exe)); fileExists(filepath.Join(d, "harness", "go.mod")) {
+			return d
+		}
+	}
+	return "/verif"
+}()
+
+func fileExists(p string) bool { _, err := os.Stat(p); return err == nil }
 
 // repoDir is the tree under test: /repo for every registered command. VCHECK_REPO
 // points the same check at a scratch worktree (used only to try seeded changes
